@@ -48,3 +48,96 @@ theorem quote_roundtrip (q : α) (s rest : List α) (h : rest.head? ≠ some q) 
         have : unesc q (d :: ds) = some (cs, rest) := by rw [← hx]; exact ih
         simp [esc, hc, hx, unesc, this]
 end Quote
+
+/-- the strict form used next to `pow2_mono`: one more bit doubles -/
+theorem pow2_mono_strict (a b : Nat) (h : a < b) : 2 * 2 ^ a ≤ 2 ^ b := by
+  have h1 : 2 ^ (a + 1) ≤ 2 ^ b := Nat.pow_le_pow_right (by decide) h
+  have h2 : 2 ^ (a + 1) = 2 * 2 ^ a := by rw [Nat.pow_succ, Nat.mul_comm]
+  omega
+
+section TwosComplement
+
+/-- big-endian value of a byte string (bytes as naturals) -/
+def beVal : List Nat → Nat
+  | [] => 0
+  | b :: bs => beVal bs + b * 256 ^ bs.length
+
+theorem beVal_lt (r : List Nat) (h : ∀ b ∈ r, b < 256) : beVal r < 256 ^ r.length := by
+  induction r with
+  | nil => simp [beVal]
+  | cons b bs ih =>
+    have hb : b < 256 := h b (by simp)
+    have hbs : beVal bs < 256 ^ bs.length := ih (fun c hc => h c (by simp [hc]))
+    have hmul : b * 256 ^ bs.length + 256 ^ bs.length ≤ 256 * 256 ^ bs.length := by
+      have : (b + 1) * 256 ^ bs.length ≤ 256 * 256 ^ bs.length := Nat.mul_le_mul_right _ (by omega)
+      rw [Nat.add_mul, Nat.one_mul] at this
+      exact this
+    simp only [beVal, List.length_cons, Nat.pow_succ]
+    rw [Nat.mul_comm (256 ^ bs.length) 256]
+    omega
+
+/-- byte strings of the same length with the same big-endian value are the same string -/
+theorem beVal_inj : ∀ (r s : List Nat), (∀ b ∈ r, b < 256) → (∀ b ∈ s, b < 256) → r.length = s.length → beVal r = beVal s → r = s
+  | [], [], _, _, _, _ => rfl
+  | [], _ :: _, _, _, hl, _ => by simp at hl
+  | _ :: _, [], _, _, hl, _ => by simp at hl
+  | b :: bs, c :: cs, hr, hs, hl, hv => by
+    have hlen : bs.length = cs.length := by simpa using hl
+    have h1 : beVal bs < 256 ^ bs.length := beVal_lt bs (fun x hx => hr x (by simp [hx]))
+    have h2 : beVal cs < 256 ^ bs.length := by
+      rw [hlen]; exact beVal_lt cs (fun x hx => hs x (by simp [hx]))
+    simp only [beVal] at hv
+    rw [← hlen] at hv
+    have hm := congrArg (· % 256 ^ bs.length) hv
+    simp only [Nat.add_mul_mod_self_right, Nat.mod_eq_of_lt h1, Nat.mod_eq_of_lt h2] at hm
+    have hmul : b * 256 ^ bs.length = c * 256 ^ bs.length := by omega
+    have hpos : 0 < 256 ^ bs.length := Nat.pow_pos (by decide)
+    have hbc : b = c := Nat.eq_of_mul_eq_mul_right hpos hmul
+    have htl : bs = cs := beVal_inj bs cs (fun x hx => hr x (by simp [hx])) (fun x hx => hs x (by simp [hx])) hlen hm
+    rw [hbc, htl]
+
+/-- P2 of `contracts/varint_common.py`: x fits in n bytes of two's complement -/
+def fits (n : Nat) (x : Int) : Prop := -((2 ^ (8 * n - 1) : Nat) : Int) ≤ x ∧ x < ((2 ^ (8 * n - 1) : Nat) : Int)
+/-- P3: fewer bytes would not fit -/
+def minimal (n : Nat) (x : Int) : Prop := n = 1 ∨ ((2 ^ (8 * n - 9) : Nat) : Int) ≤ x ∨ x < -((2 ^ (8 * n - 9) : Nat) : Int)
+
+theorem length_unique_lt (n m : Nat) (x : Int) (hn : 1 ≤ n) (hlt : n < m) (fn : fits n x) (mm : minimal m x) : False := by
+  have hmono : 2 ^ (8 * n - 1) ≤ 2 ^ (8 * m - 9) := pow2_mono _ _ (by omega)
+  have hm1 : m ≠ 1 := by omega
+  unfold fits at fn
+  unfold minimal at mm
+  rcases mm with h | h | h
+  · exact hm1 h
+  · omega
+  · omega
+
+/-- P2 and P3 determine the length -/
+theorem length_unique (n m : Nat) (x : Int) (hn : 1 ≤ n) (hm : 1 ≤ m) (fn : fits n x) (fm : fits m x) (mn : minimal n x) (mm : minimal m x) : n = m := by
+  rcases Nat.lt_trichotomy n m with h | h | h
+  · exact (length_unique_lt n m x hn h fn mm).elim
+  · exact h
+  · exact (length_unique_lt m n x hm h fm mn).elim
+
+/-- P1: the unsigned big-endian value is x, or x + 256^n for a negative x -/
+def isRepr (r : List Nat) (x : Int) : Prop :=
+  (0 ≤ x → (beVal r : Int) = x) ∧ (x < 0 → (beVal r : Int) = x + ((256 ^ r.length : Nat) : Int))
+
+/-- uniqueness of the minimal two's-complement representation: two byte strings satisfying P0-P3 for the same integer are equal
+(so P1-P4 characterise `BigInteger.toByteArray`, and the real `varint_pack`, shown to satisfy them, has no other correct output) -/
+theorem twos_complement_unique (r s : List Nat) (x : Int)
+    (hr : ∀ b ∈ r, b < 256) (hs : ∀ b ∈ s, b < 256) (nr : 1 ≤ r.length) (ns : 1 ≤ s.length)
+    (p1r : isRepr r x) (p1s : isRepr s x) (p2r : fits r.length x) (p2s : fits s.length x)
+    (p3r : minimal r.length x) (p3s : minimal s.length x) : r = s := by
+  have hl : r.length = s.length := length_unique _ _ x nr ns p2r p2s p3r p3s
+  apply beVal_inj r s hr hs hl
+  unfold isRepr at p1r p1s
+  rw [hl] at p1r
+  by_cases hx : x < 0
+  · have a := p1r.2 hx
+    have b := p1s.2 hx
+    omega
+  · have hx' : 0 ≤ x := by omega
+    have a := p1r.1 hx'
+    have b := p1s.1 hx'
+    omega
+end TwosComplement
